@@ -46,7 +46,7 @@ def run_case(index, rng, tier):
     for v in r["violations"]:
         if v["cat"] in CATS:
             viol.append({"key": "C01/" + str(v["key"]), "what": v["what"],
-                         "witness": {"v": v, "prog": summarize_prog(prog), "specs": r["specs"], "relay": relay,
+                         "witness": {"v": v, "prog": summarize_prog(prog), "specs": r["specs"], "tsn_origins": r.get("origins"), "relay": relay,
                                      "events_tail": r["events_tail"]}})
     nontrivial = (w.get("drop_data", 0) >= 1 and (w.get("rx_data_out_of_order", 0) + r["link"]["duplicated"]) >= 1
                   and w.get("tx_rtx", 0) >= 1 and c.get("multifragment_delivered", 0) >= 1)
